@@ -614,27 +614,7 @@ fn check_tree(c: &TreeCase) -> Outcome {
     out
 }
 
-fn known_tree(c: &TreeCase, _msg: &str) -> Option<&'static str> {
-    // F2: a variable whose value is an octal/hexadecimal constant
-    fn reads_radix_var(e: &Expr, env: &BTreeMap<String, String>) -> bool {
-        match e {
-            Expr::Var(n) => env.get(n).is_some_and(|t| {
-                let b = t.strip_prefix('-').unwrap_or(t);
-                b.len() > 1 && b.starts_with('0')
-            }),
-            Expr::Num(..) => false,
-            Expr::Paren(x) | Expr::Pre(_, x) | Expr::Post(_, x) => reads_radix_var(x, env),
-            Expr::Bin(_, l, r) => reads_radix_var(l, env) || reads_radix_var(r, env),
-            Expr::Cond(c, t, f) => reads_radix_var(c, env) || reads_radix_var(t, env) || reads_radix_var(f, env),
-        }
-    }
-    if reads_radix_var(&c.expr, &c.env) {
-        return Some("arith-var-radix");
-    }
-    None
-}
-
-pub static TREE: Driver<TreeCase> = Driver::new("C03", "tree", check_tree).with_known(known_tree);
+pub static TREE: Driver<TreeCase> = Driver::new("C03", "tree", check_tree);
 
 // ---- text cases: soup and arbitrary text: totality only ----
 
@@ -695,15 +675,7 @@ fn check_const(c: &ConstCase) -> Outcome {
     }
 }
 
-fn known_const(c: &ConstCase, _msg: &str) -> Option<&'static str> {
-    let b = c.text.strip_prefix('-').unwrap_or(&c.text);
-    if b.len() > 1 && b.starts_with('0') {
-        return Some("arith-var-radix");
-    }
-    None
-}
-
-pub static CONST: Driver<ConstCase> = Driver::new("C03", "const-var", check_const).with_known(known_const);
+pub static CONST: Driver<ConstCase> = Driver::new("C03", "const-var", check_const);
 
 // -------------------------------------------------------------------------------------------
 // Generators
